@@ -47,6 +47,8 @@ def width(t):
 
 
 def wrap(v, t):
+    if not isinstance(v, int):
+        return v        # an opaque model object (pointer / struct) handed through by a call hook
     w, s = width(t)
     if w == 1:
         return 1 if v else 0
